@@ -7,8 +7,8 @@ From HV Require Import Num.
 Import ListNotations.
 
 Section Integ.
-  Context {N : NumOps}.
-  Notation V := (@vec N).
+  Context {N : NumOps} (VO : VecOps N).
+  Notation V := (VV VO).
 
   Inductive instr := Drift (c : T N) | Kick (c : T N).
 
@@ -24,15 +24,32 @@ Section Integ.
     let '(q, p, tr) := s in
     match i with
     | Drift c =>
-        let q1 := vadd q (vscale c (kgrad p)) in
+        let q1 := vo_add VO q (vo_scale VO c (kgrad p)) in
         let '(q2, p2) := corr q1 p in
         (q2, p2, CCorr q1 p :: CKGrad p :: tr)
     | Kick c =>
-        (q, vsub p (vscale c (grad q)), CGrad q :: tr)
+        (q, vo_sub VO p (vo_scale VO c (grad q)), CGrad q :: tr)
     end.
 
   Definition exec (prog : list instr) (s : V * V * list call) : V * V * list call :=
     fold_left (fun s i => exec1 i s) prog s.
+
+  (* the same semantics without the call trace *)
+  Definition step_qp (i : instr) (s : V * V) : V * V :=
+    let '(q, p) := s in
+    match i with
+    | Drift c => corr (vo_add VO q (vo_scale VO c (kgrad p))) p
+    | Kick c => (q, vo_sub VO p (vo_scale VO c (grad q)))
+    end.
+  Definition run_qp (prog : list instr) (s : V * V) : V * V := fold_left (fun s i => step_qp i s) prog s.
+
+  Lemma exec_qp prog : forall q p tr, fst (exec prog (q, p, tr)) = run_qp prog (q, p).
+  Proof.
+    induction prog as [|i prog IH]; intros q p tr; [reflexivity|].
+    unfold exec, run_qp in *. cbn [fold_left]. destruct i as [c|c]; cbn [exec1 step_qp].
+    - destruct (corr _ p) as [q2 p2]. apply IH.
+    - apply IH.
+  Qed.
 
   (* repetition of a body n times *)
   Fixpoint repeat_prog (n : nat) (body : list instr) : list instr :=
@@ -82,3 +99,5 @@ End Integ.
 
 Arguments Drift {N}. Arguments Kick {N}.
 Arguments LF {N}. Arguments S3 {N}. Arguments S4 {N}.
+Arguments CMisfit {N VO}. Arguments CGrad {N VO}. Arguments CKGrad {N VO}. Arguments CKin {N VO}.
+Arguments CCorr {N VO}. Arguments CExp {N VO}. Arguments CGenMom {N VO}. Arguments CAccept {N VO}. Arguments CReject {N VO}.
